@@ -349,7 +349,8 @@ def _math_recursive_aggregate() -> Callable[[], None]:
     from ngo.normalize import exline_arithmetic
     from ngo.utils.ast import SIGNS, body_predicates, collect_ast, headderivable_predicates, literal_predicate
 
-    orig = ms.MathSimplification.execute
+    attr = "_vf_inner_execute" if hasattr(ms.MathSimplification, "_vf_inner_execute") else "execute"  # inside the stage tracer
+    orig = getattr(ms.MathSimplification, attr)
 
     def patched(self, prg, optimize=True):  # type: ignore[no-untyped-def]
         prg = list(prg)
@@ -381,10 +382,10 @@ def _math_recursive_aggregate() -> Callable[[], None]:
             out.append(old if keep_old else new)
         return out
 
-    ms.MathSimplification.execute = patched
+    setattr(ms.MathSimplification, attr, patched)
 
     def undo() -> None:
-        ms.MathSimplification.execute = orig
+        setattr(ms.MathSimplification, attr, orig)
 
     return undo
 
